@@ -102,6 +102,14 @@ theorem encode_eq_spec (is : List Inter) (kw : List (Char × NsVal))
 
 example : ∀ t ∈ strTerms [.num 1, .term ['x', 'x', 'a'], .term ['a']], t ≠ [] := by decide
 
+/-- one encoder object used for any sequence of calls (any mixture of dense, sparse and string
+arguments, repeated or changed between calls): every call returns the specification of its own
+arguments, independently of the calls before it -/
+theorem encode_history_eq_spec (is : List Inter) (calls : List (List (Char × NsVal)))
+    (hne : ∀ t ∈ strTerms is, t ≠ []) :
+    encodeHistory Cfg.fixed is calls = calls.map (fun kw => .ok (encodeS is kw)) :=
+  encode_history_eq_spec' is calls hne
+
 /-- the error branch: a term that names no namespace (`''`) makes `encode` raise IndexError -/
 theorem encode_empty_term_error (is : List Inter) (kw : List (Char × NsVal))
     (h : [] ∈ strTerms is) : encode Cfg.fixed is kw = .error .indexError :=
